@@ -524,24 +524,24 @@ theorem ede_trailing_nul_fixed :
     (lookup 4096 41).decode none [] [0, 15, 0, 5, 0, 3, 97, 0, 0] =
       .ok (.list [.pair (.nat 15) (.pair (.nat 3) (.bytes [97]))]) := by rfl
 
-/-! ## recorded defect of the working tree (KNOWN_FINDINGS.json,
-`C02/wire-roundtrip/decode-rejects-own-encoding/ANY-29/coordinate-beyond-limit-at-max-degrees`)
+/-! ## LOC coordinates (defect `…/ANY-29/coordinate-beyond-limit-at-max-degrees`, repaired by `99177f3`)
 
-`LOC.__init__` checks a coordinate tuple with `_check_coordinate_list` (`locCoordCtorOk`: degrees ≤ 90 / 180, minutes
-and seconds ≤ 59, milliseconds ≤ 999) — not the total.  For LOC the round-trip theorem `all_types_roundtrip` therefore
-carries the side condition `post (pre v) = some v`, which holds exactly for the values the decoder accepts back
-(`loc_fixpoint`); the full statement `locCtorOk v → decode (encode v) = .ok v` fails at the witness: -/
+Before the repair `_check_coordinate_list` bounded the degrees only, so `90 30 0 N` was constructed and encoded but
+rejected by the decoder.  `locCoordCtorOk` models the repaired check; what it accepts encodes inside the range the
+decoder accepts (`ConstsC02.locMin…/locMax…`): -/
 
-/-- `90 30 0.000 N  0 0 0.000 E  0m` passes the constructor's check, and its encoding is rejected by the decoder -/
-theorem loc_max_degrees_not_roundtrip :
-    locCoordCtorOk (seqV [.nat 90, .nat 30, .nat 0, .nat 0, .nat 1]) 90 = true ∧
-    locCoordCtorOk (seqV [.nat 0, .nat 0, .nat 0, .nat 0, .nat 1]) 180 = true ∧
-    (lookup 1 29).decode none []
-      ((lookup 1 29).encode none
-        (seqV [.nat 100, .nat 1000000, .nat 1000, seqV [.nat 90, .nat 30, .nat 0, .nat 0, .nat 1],
-               seqV [.nat 0, .nat 0, .nat 0, .nat 0, .nat 1], .nat 10000000])) = .error .form := by
-  refine ⟨by decide, by decide, ?_⟩
-  rfl
+theorem loc_ctor_within_wire_range (c : Val) (maxDeg : Nat) (h : locCoordCtorOk c maxDeg = true) :
+    2 ^ 31 - maxDeg * 3600000 ≤ locCoordWire c ∧ locCoordWire c ≤ 2 ^ 31 + maxDeg * 3600000 := by
+  simp only [locCoordCtorOk, Bool.and_eq_true, Bool.or_eq_true, decide_eq_true_eq] at h
+  obtain ⟨⟨⟨⟨⟨h1, h2⟩, h3⟩, h4⟩, h5⟩, h6⟩ := h
+  unfold locCoordWire
+  simp only []
+  split <;> rcases h6 with h6 | ⟨⟨a, b⟩, c'⟩ <;> omega
+
+/-- the former witness `90 30 0 N` is now rejected where it is constructed -/
+example : locCoordCtorOk (seqV [.nat 90, .nat 30, .nat 0, .nat 0, .nat 1]) 90 = false := by decide
+example : locCoordCtorOk (seqV [.nat 90, .nat 0, .nat 0, .nat 0, .nat 0]) 90 = true := by decide
+example : ConstsC02.locMaxLat = 2 ^ 31 + 90 * 3600000 ∧ ConstsC02.locMinLon = 2 ^ 31 - 180 * 3600000 := by decide
 
 /-! ## non-vacuity -/
 
